@@ -17,6 +17,7 @@ ANCHOR_FILES = ['/repo/channel.go', '/repo/node.go']
 
 def tasks(tier):
     ts = [Task('verifHarness_C13_enqueue', [0]), Task('verifHarness_C13_enqueue', [1])]
+    ts += [Task('verifHarness_C13_stall', [k]) for k in (0, 1, 2)]
     for kind in (0, 1, 2):
         for member in ((7, 5, 3) if tier == 'quick' else range(8)):
             for target in ((0,) if kind == 0 else (0, 3)):
@@ -25,7 +26,7 @@ def tasks(tier):
 
 
 def required_reach(tier):
-    return ['C13/K2', 'C11/K1']
+    return ['C13/K2', 'C11/K1', 'C13/S']
 
 
 def bounds(tier):
@@ -33,6 +34,7 @@ def bounds(tier):
             'dispatch': 'one request through the node loop with 3 member channels + 1 foreign, every queue at an arbitrary fill level '
                         '(so any subset of channels is full): the loop consumes the request and returns to waiting; every non-full '
                         'addressed channel still receives the item',
+            'stall': 'channel A full, channel B at an arbitrary non-full level; two requests (to A then to B; except-B then except-A; two write-all): both consumed, A discards, B served',
             'second_sentence': 'NOT DECIDED: what Channel.run does after runWriter returns with an error involves three goroutines '
                                '(reader blocked in the transport, writer gone, run selecting on readerDone/ctx) and a quiescence argument'}
 
